@@ -32,6 +32,16 @@
 (* constants among the leaves, so that every rounding direction meets a    *)
 (* negative non-integer operand already at "depth 2".                      *)
 (*                                                                         *)
+(* Mixed signs (SymDimMC_mixed.cfg): a targeted family of depth 3.  The     *)
+(* operands are quotients of a DIFFERENCE whose sign the symbols' positivity *)
+(* does not settle - (a - b)/k, (a - b)/c, k/a - b  (a, b symbols or small  *)
+(* constants) - so that under the bindings in {1..4}^2 they take negative,  *)
+(* positive, integral and non-integral values; one step applies floor, ceil, *)
+(* trunc, neg to such an operand or uses it as dividend / divisor of // and  *)
+(* %.  Every tree of the family is emitted: an implementation that chooses   *)
+(* the rounding direction from a symbolic sign test is exercised on both     *)
+(* signs of the same expression.                                             *)
+(*                                                                         *)
 (* Shapes (SymDimMC_shapes.cfg): the precedence / associativity lemmas on  *)
 (* explicit token strings (-N**2, N-M-K, N//M//K, N%M*K, 2**N**2, ...),    *)
 (* each with the tree it must mean; emitted with values for replay.        *)
@@ -56,11 +66,12 @@ CONSTANTS
   UnSet, BinSet,   \* operators enumerated
   PerClass, SampleRem,    \* stratified sample of the trees of depth 2, see Emitted
   ClosedBoost,
+  MixInts, MixDivs, MixNums,   \* mixed-signs family: constants in differences, constant divisors, numerators of k/a - b
   NRand, RandDepth,
   LightLemmas  \* TRUE: check PartialOK / all print modes only on emitted trees (quick tier)
 
 VARIABLES t,   \* the tree
-          ph,  \* "init" | "ext" | "rand" (tree states) | "shape" | "text"
+          ph,  \* "init" | "ext" | "rand" | "mix0" | "mix" (tree states) | "shape" | "text"
           x,   \* shape: the token sequence; text: <<id>> \o tokens; rand: <<index>>; <<>> otherwise
           v    \* the value table of t: v[i] = Eval(t, EnvSeq[i])  (computed once per tree)
 
@@ -123,7 +134,7 @@ Stride(tt) == LET m == ClassSize(tt) \div PerClass IN IF m < 1 THEN 1 ELSE m
 \* closed trees (no symbol: the library folds them when they are built) are sampled ClosedBoost times denser
 ClosedStride(tt) == LET m == Stride(tt) \div ClosedBoost IN IF m < 1 THEN 1 ELSE m
 Emitted ==
-  \/ ph = "rand"
+  \/ ph \in {"rand", "mix0", "mix"}
   \/ Depth(t) <= 1
   \/ t.op \in UnAll
   \/ Hash(t) % Stride(t) = SampleRem % Stride(t)
@@ -136,7 +147,7 @@ Modes == {"min", "full", "atoms"}
 Fns   == {FnLower, FnUpper, FnMod}
 Heavy == ~LightLemmas \/ Emitted
 
-TreeState == ph \in {"init", "ext", "rand"}
+TreeState == ph \in {"init", "ext", "rand", "mix0", "mix"}
 ShapeState == ph = "shape"
 
 \* v is built compositionally in NextEnum (one application of the operator's semantics to the value
@@ -229,6 +240,40 @@ NextEnum ==
      \/ \E o \in BinSet, r \in Trees1 :
           /\ t' = Bin(o, t, r)
           /\ v' = [i \in DOMAIN v |-> BinLift(o, v[i], Vals1[r][i])]
+
+(***************************************************************************)
+(* Mixed signs: rounding operators over quotients of sign-undetermined     *)
+(* differences                                                             *)
+(***************************************************************************)
+MixSyms  == {Sym(s) : s \in Syms}
+MixAtoms == MixSyms \cup {Num(k) : k \in MixInts}
+MixDiffs == {Bin("sub", a, b) : a \in MixAtoms, b \in MixAtoms} \ {Bin("sub", a, b) : a \in MixAtoms \ MixSyms, b \in MixAtoms \ MixSyms}
+MixOperands ==
+  {Bin("truediv", d, Num(k)) : d \in MixDiffs, k \in MixDivs}
+    \cup {Bin("truediv", d, c) : d \in MixDiffs, c \in MixSyms}
+    \cup {Bin("sub", Bin("truediv", Num(k), a), b) : k \in MixNums, a \in MixSyms, b \in MixAtoms}
+MixOthers == MixSyms \cup {Num(k) : k \in MixDivs} \cup {Un("neg", Num(k)) : k \in MixDivs}
+MixUn  == {"floor", "ceil", "trunc", "neg"}
+MixBin == {"floordiv", "mod"}
+InitMixed == ph = "mix0" /\ x = <<>> /\ t \in MixOperands /\ v = ValsOf(t)
+NextMixed ==
+  /\ ph = "mix0" /\ ph' = "mix" /\ x' = x
+  /\ \/ \E o \in MixUn :
+          /\ t' = Un(o, t)
+          /\ v' = [i \in DOMAIN v |-> UnLift(o, v[i])]
+     \/ \E o \in MixBin, r \in MixOthers :
+          \/ /\ t' = Bin(o, t, r)
+             /\ v' = [i \in DOMAIN v |-> BinLift(o, v[i], Eval(r, EnvSeq[i]))]
+          \/ /\ t' = Bin(o, r, t)
+             /\ v' = [i \in DOMAIN v |-> BinLift(o, Eval(r, EnvSeq[i]), v[i])]
+
+\* the family does what it is for: the quotient of a difference of two symbols takes a negative non-integer
+\* AND a positive non-integer value under bindings of the table (constant level, checked once)
+ASSUME MixedIsMixed ==
+  \A k \in MixDivs, a \in MixSyms : \A b \in MixSyms \ {a} :
+     LET q == Bin("truediv", Bin("sub", a, b), Num(k)) IN
+       /\ \E i \in DOMAIN EnvSeq : LET w == Eval(q, EnvSeq[i]) IN Def(w) /\ ~IsInt(w) /\ w[1] < 0
+       /\ \E i \in DOMAIN EnvSeq : LET w == Eval(q, EnvSeq[i]) IN Def(w) /\ ~IsInt(w) /\ w[1] > 0
 
 (***************************************************************************)
 (* Random trees of a given depth (thorough tier)                           *)
